@@ -313,3 +313,10 @@ def run(ctx, fb, cfg):
     import C03
 
     C03.check_store_walk_star(ctx, lib, R + "K3.store-walk-star")
+    # the reported disequalities survive purify only if their variables got reified names: the
+    # reifying map must name every free variable of the answer, improper tails included
+    import traversal
+
+    C03.check_reify_threading(ctx, lib, R + "K3.reify-threads")
+    C03.check_is_anyvar(ctx, lib, R + "K6.is-anyvar")
+    traversal.run_table(ctx, lib, R + "K5.traversal", only=["SMap::reify", "is_anyvar"])
